@@ -324,6 +324,11 @@ def run_memo(case):
     return [apply_op(pool, op, case["grid"]) for op in case["ops"]]
 
 
+import copy as _copy
+
+_ORDERS = [(0, 1, 2), (1, 0, 2), (2, 1, 0), (1, 2, 0), (2, 0, 1), (0, 2, 1)]
+
+
 def oracle_memo(case):
     """second run of the same history; after every operation every object must show the shape, size and
     points of a freshly built grid with the object's current location"""
@@ -345,7 +350,13 @@ def oracle_memo(case):
                 f = gu.build_grid(spec, loc=loc)
                 fresh[loc] = (tuple(int(v) for v in f.data_shape), int(f.data_size), len(f.data_points))
             exp = fresh[loc]
-            got = (tuple(int(v) for v in y.data_shape), int(y.data_size), len(y.data_points))
+            # read from a deep copy (the object of the history is not touched: a read must not repair what the next read sees),
+            # the three properties in an order that varies with the step
+            z = _copy.deepcopy(y)
+            got = [None, None, None]
+            for which in _ORDERS[(n + k) % len(_ORDERS)]:
+                got[which] = (tuple(int(v) for v in z.data_shape) if which == 0 else int(z.data_size) if which == 1 else len(z.data_points))
+            got = tuple(got)
             if got != exp:
                 return ("data_shape, data_size and data_points reflect the current data location",
                         {"after_op": n, "object": k, "location": loc,
